@@ -138,3 +138,19 @@ def stmts_of(body):
     if body.get("k") == "CompoundStmt":
         return [c for c in body["c"] if c is not None]
     return [body]
+
+
+def missing_anchors(P, F, names):
+    """names (of locals, parameters or fields) a text-shaped rule is written over that no longer occur in F.
+    A rule that compares rendered statements must call this first and answer `unknown` (analysis broken, exit 2),
+    never `violation`, when an anchor was renamed: a rename changes no behaviour."""
+    have = set()
+    for p in F.params:
+        have.add(P.d(p).get("n"))
+    for n in F.walk():
+        k = n.get("k")
+        if k in ("VarDecl", "DecompositionDecl", "BindingDecl"):
+            have.add(n.get("n"))
+        elif k in ("DeclRefExpr", "MemberExpr"):
+            have.add(n.get("n"))
+    return sorted(set(names) - have)
